@@ -14,7 +14,7 @@ Qed.
 Lemma listed_homogeneous : forall files t id, all_homogeneous files = true ->
   listed files t id = listed_by_blob_type files t id.
 Proof.
-  intros files t id H. unfold listed, listed_by_blob_type, packs_of_type, all_homogeneous in *.
+  intros files t id H. unfold listed, listed_in, listed_by_blob_type, packs_of_type, all_homogeneous in *.
   rewrite existsb_filter. apply existsb_ext_local. intros p Hp.
   rewrite forallb_forall in H. specialize (H p Hp). unfold homogeneous in H. rewrite forallb_forall in H.
   unfold lists_id. destruct (bt_eqb (pack_type p) t) eqn:Et; cbn [andb].
@@ -32,7 +32,7 @@ Lemma has_blob_type_lemma : forall sort_e sort_i,
   forall t id, has ix t id = listed_by_blob_type files t id.
 Proof.
   intros se si He Hi files ix H Hh t id.
-  rewrite (has_char se si He Hi _ _ _ H), <- (listed_homogeneous _ _ _ Hh). destruct t; reflexivity.
+  rewrite (has_char_dbg se si He Hi _ _ _ H), <- (listed_homogeneous _ _ _ Hh). destruct t; reflexivity.
 Qed.
 
 (* a restic-v1-style pack holding a data blob (id 1) first and a tree blob (id 2) second *)
